@@ -197,6 +197,7 @@ func (n *Node) Crash() {
 	n.cancel()
 	for _, t := range n.sim.parkedTasks() {
 		if t.Node == n {
+			n.sim.Probe("crash-at:" + t.Role + "@" + t.point)
 			n.sim.Kill(t)
 		}
 	}
